@@ -165,7 +165,7 @@ def extract(repo):
 def assemble(ex, prelude, fns_spec, loops_spec):
     import weave
     used_fn, used_loop, defaulted = set(), set(), []
-    chunks = [('use vstd::prelude::*;\nverus! {\n', None), (prelude + '\n', None), (ex['ty_of'] + '\n', None)]
+    chunks = [('use vstd::prelude::*;\nuse std::sync::Arc;\nverus! {\n', None), (prelude + '\n', None), (ex['ty_of'] + '\n', None)]
     for it in ex['items']:
         if it.kind == 'type':
             chunks.append((it.text + '\n', it))
